@@ -206,7 +206,7 @@ func (w *World) Observe() J {
 
 	// oracle
 	prices := [][]string{}
-	for _, dn := range []string{"uatom", "uelys", "uusdc"} {
+	for _, dn := range []string{"uatom", "uelys", w.usdc()} {
 		prices = append(prices, []string{dn, decRaw(app.OracleKeeper.GetAssetPriceFromDenom(ctx, dn))})
 	}
 	perpAtom := "0"
